@@ -1,6 +1,7 @@
 -- ENGINE: incr => PCV.Engines.incr
 -- ENGINE: incr_fail => PCV.Engines.incr_fail
 -- ENGINE: incr_queries => PCV.Engines.incr_queries
+-- ENGINE: incr_diag => PCV.Engines.incr_diag
 import PCV.Engine
 import PCV.Util.Wire
 import PCV.Model.Incr
@@ -928,7 +929,7 @@ def qKeyName (m : QMState) (k : Key) : String :=
   | 3 => s!"I:{p}"
   | 4 => "L:" ++ "+".intercalate ((qWss m p).map toString)
   | 6 => "S:" ++ "+".intercalate ((qWss m p).map toString)
-  | 7 => s!"P:{p % 64}#{p / 64}"
+  | 7 => s!"P:{p % 4096}#{p / 4096}"
   | _ => "Z"
 
 def qUniverse (m : QMState) : List Key :=
@@ -979,6 +980,18 @@ def incrQueriesStep (m : QMState) (line : String) : QMState × String :=
                 nextId := m.nextId + 1,
                 paths := sortDedup (i :: imps ++ m.paths) }, "ok")
     | _, _, _ => (m, "bad-op")
+  | ["putx", i, imps, errs] => match i.toNat?, parseInts imps with
+    | some i, some imps =>
+      -- an invalid file: only its import statements matter to the dependency structure; every
+      -- `m` token adds an import of a file that never exists (paths 1000*i + n)
+      if i < 1 || imps.any (· < 1) || !(errs == "-" || errs.toList.all (fun c => "lsudtnm".toList.contains c)) then (m, "bad-op") else
+      let missing := (List.range (errs.toList.filter (· == 'm')).length).map (fun n => 1000 * i + n)
+      let allImps := imps ++ missing
+      ({ m with env := (i, m.nextId) :: m.env.filter (fun p => p.1 != i),
+                table := (m.nextId, { path := i, imports := allImps }) :: m.table,
+                nextId := m.nextId + 1,
+                paths := sortDedup (i :: allImps ++ m.paths) }, "ok")
+    | _, _ => (m, "bad-op")
   | ["del", i] => match i.toNat? with
     | some i => if i < 1 then (m, "bad-op") else ({ m with env := m.env.filter (fun p => p.1 != i), paths := sortDedup (i :: m.paths) }, "ok")
     | none => (m, "bad-op")
@@ -1058,6 +1071,9 @@ def incrQueriesSpec (s : QSState) (line ans : String) : QSState × String :=
   | ["del", i] => match i.toNat? with
     | some i => ({ s with dirty := i :: s.dirty }, "skip")
     | none => (s, "skip")
+  | ["putx", i, _, _] => match i.toNat? with
+    | some i => ({ s with dirty := i :: s.dirty }, "skip")
+    | none => (s, "skip")
   | "evict" :: is => match is.mapM String.toNat? with
     | some is => ({ s with dirty := s.dirty.filter (fun d => !is.contains d) }, "skip")
     | none => (s, "skip")
@@ -1066,6 +1082,40 @@ def incrQueriesSpec (s : QSState) (line ans : String) : QSState × String :=
     else if ans.startsWith "agree" && (ans.splitOn "err=").length == 1 then (s, "holds")
     else (s, s!"fails incremental-result-differs-from-fresh-compilation [{(ans.splitOn " keys=").headD ""}]")
   | _ => (s, "skip")
+
+/-! ## Engine `incr_diag` (C36, executor clause): the diagnostics a compilation reports are the
+same ordered list for repeated runs on one executor and for every parallelism.
+
+The model does not predict diagnostics: `diag` answers `ran`; what the harness observed follows
+` ~ ` and is judged by the oracle only. -/
+
+def incrDiagStep (u : Unit) (line : String) : Unit × String :=
+  let okNat (t : String) : Bool := (t.toNat?).isSome
+  match words line with
+  | ["new", p] => (u, if okNat p then "ok" else "bad-op")
+  | ["put", i, imps, v] => (u, if okNat i && (parseInts imps).isSome && okNat v then "ok" else "bad-op")
+  | ["putx", i, imps, errs] =>
+    (u, if okNat i && (parseInts imps).isSome && (errs == "-" || errs.toList.all (fun c => "lsudtnm".toList.contains c)) then "ok" else "bad-op")
+  | ["del", i] => (u, if okNat i then "ok" else "bad-op")
+  | "evict" :: is => (u, if is.all okNat then "ok" else "bad-op")
+  | ["diag", ws, reps] => match parseInts ws, reps.toNat? with
+    | some l, some k => (u, if !l.isEmpty && l.all (· ≥ 1) && k ≥ 1 && k ≤ 16 then "ran" else "bad-op")
+    | _, _ => (u, "bad-op")
+  | _ => (u, "bad-op")
+
+def incrDiagSpec (u : Unit) (line ans : String) : Unit × String :=
+  match words line with
+  | ["diag", _, _] =>
+    match ans.splitOn " ~ " with
+    | [_, obs] =>
+      if obs.startsWith "same " then (u, "holds")
+      else if obs.startsWith "differ:runs" then (u, s!"fails diagnostics-differ-between-runs [{obs}]")
+      else if obs.startsWith "differ:parallelism" then (u, s!"fails diagnostics-differ-between-parallelism [{obs}]")
+      else if obs.startsWith "tieorder:runs" then (u, s!"fails diagnostics-order-of-key-ties-differs-between-runs [{obs}]")
+      else if obs.startsWith "tieorder:parallelism" then (u, s!"fails diagnostics-order-of-key-ties-differs-between-parallelism [{obs}]")
+      else (u, s!"fails compilation-did-not-return [{obs}]")
+    | _ => (u, s!"fails compilation-did-not-return [{ans}]")
+  | _ => (u, "skip")
 
 end PCV.Engines.IncrE
 
@@ -1076,4 +1126,6 @@ def incr_fail : Engine :=
   { σ := IncrE.FMState, init := {}, step := IncrE.incrFailStep, τ := IncrE.FSState, specInit := {}, spec := IncrE.incrFailSpec }
 def incr_queries : Engine :=
   { σ := IncrE.QMState, init := {}, step := IncrE.incrQueriesStep, τ := IncrE.QSState, specInit := {}, spec := IncrE.incrQueriesSpec }
+def incr_diag : Engine :=
+  { σ := Unit, init := (), step := IncrE.incrDiagStep, τ := Unit, specInit := (), spec := IncrE.incrDiagSpec }
 end PCV.Engines
